@@ -191,6 +191,129 @@ theorem preloadString_of_load {n : Nat} {s s' : Slice R} {v : Bytes} (h : SOp.lo
   unfold SOp.preloadString
   exact preloadBytes_of_load h
 
+theorem bind_some_inv {f : SOp R α} {g : α → SOp R β} {s s' : Slice R} {b : β}
+    (h : SOp.bind f g s = (s', some b)) : ∃ s1 a, f s = (s1, some a) ∧ g a s1 = (s', some b) := by
+  unfold SOp.bind at h
+  cases hf : f s with
+  | mk s1 r =>
+    rw [hf] at h
+    cases r with
+    | none => simp at h
+    | some a => exact ⟨s1, a, rfl, h⟩
+
+theorem preloadAddress_of_load {s s' : Slice R} {a : Addr} (h : SOp.loadAddress s = (s', some a)) :
+    SOp.preloadAddress s = (s, some a) := by
+  obtain ⟨bits, refs⟩ := s
+  have h0 := h
+  match bits with
+  | [] => simp [SOp.loadAddress, SOp.bind, loadUint_eq] at h
+  | [b0] => simp [SOp.loadAddress, SOp.bind, loadUint_eq] at h
+  | b0 :: b1 :: rest =>
+    have h2 : SOp.loadUint 2 ⟨b0 :: b1 :: rest, refs⟩ = (⟨rest, refs⟩, some (natOfBits [b0, b1] : Int)) := by
+      rw [loadUint_eq]; simp
+    have p2 := preloadUint_of_load h2
+    simp only [SOp.loadAddress, bind_eq, pure_eq] at h
+    rw [bind_some h2] at h
+    unfold SOp.preloadAddress
+    simp only [p2]
+    cases b0 <;> cases b1
+    · simp [natOfBits, SOp.pure] at h ⊢
+      exact h.2
+    · have e : ((natOfBits [false, true] : Nat) : Int) = 1 := rfl
+      simp only [e, show ¬((1:Int) = 0) by decide, if_true, if_false] at h ⊢
+      cases h9 : SOp.loadUint 9 ⟨rest, refs⟩ with
+      | mk s2 r9 =>
+        cases r9 with
+        | none => rw [bind_none h9] at h; simp at h
+        | some len =>
+          rw [bind_some h9] at h
+          rw [loadUint_eq] at h9
+          split at h9
+          · simp at h9
+          · rename_i hc9
+            simp only [Prod.mk.injEq, Option.some.injEq] at h9
+            obtain ⟨hs2, hlen⟩ := h9
+            have elb : ((false :: true :: rest).take 11).drop 2 = rest.take 9 := by simp
+            have hne : (rest.take 9).isEmpty = false := take_isEmpty_false (by omega) (by omega)
+            simp only [elb, hne, Bool.false_eq_true, if_false]
+            generalize hL : natOfBits (List.take 9 rest) = L at *
+            subst hlen; subst hs2
+            by_cases hl0 : L = 0
+            · subst hl0
+              simp only [Int.natCast_zero, if_true, SOp.pure, Prod.mk.injEq, Option.some.injEq] at h ⊢
+              exact ⟨trivial, h.2⟩
+            · have hne0 : ¬ ((L : Nat) : Int) = 0 := by omega
+              simp only [hne0, hl0, if_false, Int.toNat_natCast] at h ⊢
+              cases hv : SOp.loadUint L ⟨List.drop 9 rest, refs⟩ with
+              | mk s3 rv =>
+                cases rv with
+                | none => rw [bind_none hv] at h; simp at h
+                | some v =>
+                  rw [bind_some hv] at h
+                  rw [loadUint_eq] at hv
+                  split at hv
+                  · simp at hv
+                  · rename_i hcv
+                    simp only [Prod.mk.injEq, Option.some.injEq] at hv
+                    have eab : List.drop 11 (List.take (11 + L) (false :: true :: rest)) = List.take L (List.drop 9 rest) := by
+                      rw [drop_take_eq]; simp
+                    have hne2 : (List.take L (List.drop 9 rest)).isEmpty = false :=
+                      take_isEmpty_false (by omega) (by omega)
+                    simp only [eab, hne2, Bool.false_eq_true, if_false, hv.2]
+                    simp only [SOp.pure, Prod.mk.injEq, Option.some.injEq] at h
+                    rw [h.2]
+    · -- tag 2: addr_std
+      have e : ((natOfBits [true, false] : Nat) : Int) = 2 := rfl
+      simp only [e, show ¬((2:Int) = 0) by decide, show ¬((2:Int) = 1) by decide, if_true, if_false,
+        show ((2:Int) != 2) = false by decide, Bool.false_eq_true] at h ⊢
+      obtain ⟨s1, any, hb, h⟩ := bind_some_inv h
+      cases rest with
+      | nil => simp [SOp.loadBit] at hb
+      | cons b2 rest2 =>
+        simp only [SOp.loadBit, Prod.mk.injEq, Option.some.injEq] at hb
+        obtain ⟨rfl, rfl⟩ := hb
+        have p3 : SOp.preloadUint 3 ⟨true :: false :: b2 :: rest2, refs⟩
+            = (⟨true :: false :: b2 :: rest2, refs⟩, some (natOfBits [true, false, b2] : Int)) := by
+          simp [SOp.preloadUint, SOp.bind, SOp.peekBits, SOp.ofOption, SOp.ba2intU]
+        simp only [p3]
+        cases b2 with
+        | true =>
+          have e3 : ((natOfBits [true, false, true] : Nat) : Int) = 5 := rfl
+          simp only [e3, show (((5:Int) % 2) != 0) = true by decide, if_true, h0]
+        | false =>
+          have e3 : ((natOfBits [true, false, false] : Nat) : Int) = 4 := rfl
+          simp only [e3, show (((4:Int) % 2) != 0) = false by decide, Bool.false_eq_true, if_false]
+          obtain ⟨s2, ac, hac, h⟩ := bind_some_inv h
+          simp only [Bool.false_eq_true, if_false, SOp.pure, Prod.mk.injEq, Option.some.injEq] at hac
+          obtain ⟨rfl, rfl⟩ := hac
+          obtain ⟨s3, wc, hwc, h⟩ := bind_some_inv h
+          obtain ⟨s4, hp, hhp, h⟩ := bind_some_inv h
+          rw [loadInt_eq] at hwc
+          split at hwc
+          · simp at hwc
+          · rename_i c1
+            simp only [Prod.mk.injEq] at hwc
+            obtain ⟨rfl, hwc⟩ := hwc
+            rw [loadBytes_eq] at hhp
+            split at hhp
+            · simp at hhp
+            · rename_i c2
+              simp only [Prod.mk.injEq, Option.some.injEq] at hhp
+              obtain ⟨rfl, rfl⟩ := hhp
+              simp only [SOp.pure, Prod.mk.injEq, Option.some.injEq] at h
+              have e1 : List.drop 3 (List.take 11 (List.take 267 (true :: false :: false :: rest2))) = List.take 8 rest2 := by
+                simp [List.take_take]
+              have e2 : List.drop 11 (List.take 267 (true :: false :: false :: rest2)) = List.take (32 * 8) (List.drop 8 rest2) := by
+                rw [show 267 = 11 + 256 by rfl, drop_take_eq]; simp
+              simp only [e1, e2, hwc]
+              rw [← h.2]
+    · -- tag 3: not supported, load fails
+      have e : ((natOfBits [true, true] : Nat) : Int) = 3 := rfl
+      simp only [e, show ¬((3:Int) = 0) by decide, show ¬((3:Int) = 1) by decide, show ¬((3:Int) = 2) by decide,
+        if_false] at h
+      obtain ⟨s1, any, hb, h⟩ := bind_some_inv h
+      obtain ⟨s2, ac, hac, h⟩ := bind_some_inv h
+      simp [SOp.fail] at h
 theorem map_some_inv {f : SOp R α} {g : α → β} {s s' : Slice R} {v : β} (h : f.map g s = (s', some v)) :
     ∃ a, f s = (s', some a) ∧ g a = v := by
   unfold SOp.map at h
